@@ -420,6 +420,10 @@ theorem pshift_error_mode (t : PTier Int) (hwf : t.WF) (o : Int) :
 
 /-! ## 7. appendTier -/
 
+/-- **appendTier on non-negative times**: `A`'s entries unchanged, followed by `B`'s entries moved by exactly `A`'s
+end; the span ends at the sum of both ends.  `0 ≤ u.lo` and `0 ≤ t.hi` ("both tiers live on non-negative times") are
+NOT enforced by the code and are needed: `appendTier` moves `B` with `editTimestamps`, which drops what lands before time
+0 and clips what crosses it — see `append_negative_counterexample` (replayed on the class). -/
 theorem append_spec (t u : ITier Int) (ht : t.WF) (hu : u.WF) (hulo : 0 ≤ u.lo) (hthi : 0 ≤ t.hi) :
     ∃ r, t.appendTier u = .ok r ∧ r.WF ∧ r.name = t.name ∧
       r.es = t.es ++ u.es.map (fun iv => ⟨t.hi + iv.s, t.hi + iv.e, iv.l⟩) ∧
@@ -848,6 +852,93 @@ theorem appendTg_names (g h r : Tg Int) (om : Bool) (hg : g.names.Nodup) (hh : h
       rw [e2, e1]
       exact foldl_addNew_old _ _ (fun n hn => hn)
   · cases hr
+
+/-! ## the excluded case of `append_spec`: tiers on negative times -/
+
+def negA : ITier Int := ⟨"A", [⟨-4, -3, "a"⟩], -5, -2⟩
+def posB : ITier Int := ⟨"B", [⟨1, 2, "b"⟩], 0, 3⟩
+def posA : ITier Int := ⟨"A", [⟨1, 2, "a"⟩], 0, 4⟩
+def negB : ITier Int := ⟨"B", [⟨-6, -5, "x"⟩, ⟨-2, 1, "y"⟩, ⟨1, 2, "b"⟩], -7, 3⟩
+def posA2 : ITier Int := ⟨"A", [⟨2, 4, "a"⟩], 0, 8⟩
+def negB2 : ITier Int := ⟨"B", [⟨-10, -7, "x"⟩], -10, 6⟩
+
+theorem negA_wf : negA.WF := by
+  refine ⟨?_, ?_, ?_, ?_, ?_, ?_⟩ <;> simp [negA, Pos, Disj, Stripped] <;> decide
+theorem posB_wf : posB.WF := by
+  refine ⟨?_, ?_, ?_, ?_, ?_, ?_⟩ <;> simp [posB, Pos, Disj, Stripped] <;> decide
+theorem posA_wf : posA.WF := by
+  refine ⟨?_, ?_, ?_, ?_, ?_, ?_⟩ <;> simp [posA, Pos, Disj, Stripped] <;> decide
+theorem negB_wf : negB.WF := by
+  refine ⟨?_, ?_, ?_, ?_, ?_, ?_⟩ <;> simp [negB, Pos, Disj, Stripped] <;> decide
+theorem posA2_wf : posA2.WF := by
+  refine ⟨?_, ?_, ?_, ?_, ?_, ?_⟩ <;> simp [posA2, Pos, Disj, Stripped] <;> decide
+theorem negB2_wf : negB2.WF := by
+  refine ⟨?_, ?_, ?_, ?_, ?_, ?_⟩ <;> simp [negB2, Pos, Disj, Stripped] <;> decide
+
+/-- `appendTier` evaluated, no hypothesis on signs: `B`'s entries are moved by `A`'s end, those landing wholly before
+time 0 are dropped and one crossing 0 is clipped (`shiftClip`); if the sorted concatenation `R` is an admissible entry
+list, the result has exactly these entries, and its span is the hull of `R`, `A`'s start and the sum of both ends -/
+theorem append_eval (t u : ITier Int) (hu : u.WF) (R : List (Iv Int))
+    (hR : sortIvs (t.es ++ u.es.filterMap (fun iv => (shiftClip t.hi u.lo u.hi iv).2)) = R)
+    (hp : Pos R) (hd : Disj R) (hs : Stripped R) :
+    t.appendTier u = .ok ⟨t.name, R, hullMin (R.map (·.s)) t.lo, hullMax (R.map (·.e)) (t.hi + u.hi)⟩ := by
+  obtain ⟨u', e1, _, _, hes, _, _⟩ := shift_ok u hu t.hi .silence (by decide)
+  unfold ITier.appendTier ITier.new
+  rw [e1]
+  simp only [bind, Except.bind, Option.getD_some, Option.getD_none, hes, hR]
+  exact mkITier_of_wf t.name R t.lo (t.hi + u.hi) hp hd hs
+
+/-- **FINDING (replayed on the real class) — `appendTier` on negative times loses entries silently.**
+The property text says: appending `B` to `A` yields `A`'s entries unchanged followed by `B`'s entries shifted by `A`'s end
+time.  All six tiers below are well-formed (they pass the constructor and `validate()`).
+
+1. `A` ends before time 0 (`0 ≤ t.hi` fails): `IntervalTier('A',[(-4,-3,'a')],-5,-2).appendTier(IntervalTier('B',[(1,2,'b')],0,3))`
+   returns entries `[(-4,-3,'a')]`, span `[-5, 1]` — `B`'s only entry (it would be `(-1, 0, 'b')`) is gone, no error, no warning.
+2. `B` starts before time 0 (`0 ≤ u.lo` fails): `IntervalTier('A',[(1,2,'a')],0,4).appendTier(IntervalTier('B',[(-6,-5,'x'),(-2,1,'y'),(1,2,'b')],-7,3))`
+   returns `[(1,2,'a'),(2,5,'y'),(5,6,'b')]` — `'x'` (it would be `(-2,-1)`) is dropped.
+3. `IntervalTier('A',[(2,4,'a')],0,8).appendTier(IntervalTier('B',[(-10,-7,'x')],-10,6))` returns `[(0,1,'x'),(2,4,'a')]`:
+   `B`'s entry, moved to `(-2, 1)`, is clipped to `(0, 1)` and stands BEFORE `A`'s entry.
+4. entry-less tiers: `IntervalTier('A',[],0,1).appendTier(IntervalTier('B',[],-5,-3))` returns a tier spanning `[0, -2]`
+   (`maxTimestamp < minTimestamp`, `validate()` True — cf. `C05.construct_reversed_span_counterexample`).
+
+Expected per the property text: (1) `[(-4,-3,'a'),(-1,0,'b')]`, (2) `'x'` kept at `(-2,-1)` or a praatio error,
+(3) `(-2,1,'x')` or a praatio error, (4) a praatio error or the span `[0, 1 + (-3)]` put in order.  Cause: `appendTier`
+shifts `B` with `editTimestamps(self.maxTimestamp)`, whose dropping/clipping at time 0 (documented for `editTimestamps`
+itself) is a side effect here.  `Textgrid.appendTextgrid` behaves the same on (1) and (2) (replayed). -/
+theorem append_negative_counterexample :
+    negA.WF ∧ posB.WF ∧ negA.appendTier posB = .ok ⟨"A", [⟨-4, -3, "a"⟩], -5, 1⟩ ∧
+    posA.WF ∧ negB.WF ∧ posA.appendTier negB = .ok ⟨"A", [⟨1, 2, "a"⟩, ⟨2, 5, "y"⟩, ⟨5, 6, "b"⟩], 0, 7⟩ ∧
+    posA2.WF ∧ negB2.WF ∧ posA2.appendTier negB2 = .ok ⟨"A", [⟨0, 1, "x"⟩, ⟨2, 4, "a"⟩], 0, 14⟩ ∧
+    (⟨"A", [], 0, 1⟩ : ITier Int).appendTier ⟨"B", [], -5, -3⟩ = .ok ⟨"A", [], 0, -2⟩ ∧
+    ¬ (⟨"A", [], 0, -2⟩ : ITier Int).WF := by
+  have wfR2 : (⟨"R", [⟨1, 2, "a"⟩, ⟨2, 5, "y"⟩, ⟨5, 6, "b"⟩], 0, 7⟩ : ITier Int).WF := by
+    refine ⟨?_, ?_, ?_, ?_, ?_, ?_⟩ <;> simp [Pos, Disj, Stripped] <;> decide
+  have wfR3 : (⟨"R", [⟨0, 1, "x"⟩, ⟨2, 4, "a"⟩], 0, 14⟩ : ITier Int).WF := by
+    refine ⟨?_, ?_, ?_, ?_, ?_, ?_⟩ <;> simp [Pos, Disj, Stripped] <;> decide
+  have wfE : (⟨"B", [], -5, -3⟩ : ITier Int).WF := by
+    refine ⟨?_, ?_, ?_, ?_, ?_, ?_⟩ <;> simp [Pos, Disj, Stripped]
+  refine ⟨negA_wf, posB_wf, ?_, posA_wf, negB_wf, ?_, posA2_wf, negB2_wf, ?_, ?_, ?_⟩
+  · rw [append_eval negA posB posB_wf [⟨-4, -3, "a"⟩] (by
+      have : posB.es.filterMap (fun iv => (shiftClip negA.hi posB.lo posB.hi iv).2) = [] := by decide
+      rw [this]; exact sortIvs_of_wf _ negA_wf.pos negA_wf.disj) negA_wf.pos negA_wf.disj negA_wf.stripped]
+    rfl
+  · rw [append_eval posA negB negB_wf [⟨1, 2, "a"⟩, ⟨2, 5, "y"⟩, ⟨5, 6, "b"⟩] (by
+      have : posA.es ++ negB.es.filterMap (fun iv => (shiftClip posA.hi negB.lo negB.hi iv).2) =
+          [⟨1, 2, "a"⟩, ⟨2, 5, "y"⟩, ⟨5, 6, "b"⟩] := by decide
+      rw [this]; exact sortIvs_of_wf _ wfR2.pos wfR2.disj) wfR2.pos wfR2.disj wfR2.stripped]
+    rfl
+  · rw [append_eval posA2 negB2 negB2_wf [⟨0, 1, "x"⟩, ⟨2, 4, "a"⟩] (by
+      have : posA2.es ++ negB2.es.filterMap (fun iv => (shiftClip posA2.hi negB2.lo negB2.hi iv).2) =
+          [⟨2, 4, "a"⟩, ⟨0, 1, "x"⟩] := by decide
+      rw [this]
+      simp [sortIvs, List.mergeSort, List.MergeSort.Internal.splitInTwo, Iv.le]) wfR3.pos wfR3.disj wfR3.stripped]
+    rfl
+  · rw [append_eval ⟨"A", [], 0, 1⟩ ⟨"B", [], -5, -3⟩ wfE [] (by simp [sortIvs]) (by simp [Pos]) (by simp [Disj])
+      (by simp [Stripped])]
+    rfl
+  · intro h
+    have := h.span
+    simp at this
 
 /-! ## non-vacuity: concrete well-formed tiers meet the hypotheses -/
 
